@@ -880,6 +880,12 @@ def expand_single_defs(body, term, g, keep=(), depth=0):
     return map_term(term, f)
 
 
+def unov_atom(a):
+    f = lambda t: map_term(t, lambda x: ("binop", x[1][1].replace("WithOverflow", ""), x[1][2], x[1][3])
+                           if x[0] == "field" and str(x[2]) == "0" and x[1][0] == "binop" and x[1][1].endswith("WithOverflow") else None) if isinstance(t, tuple) else t
+    return tuple(f(x) for x in a)
+
+
 def relator_scan_shape(ctx, rule, g):
     """fpgroups::cosets: scan / scan_inverse walk the word from `start` for at most `limit` letters and report the row reached and the
     letters consumed at both exits; scan_both_ways = (head of the forward scan with the FULL budget len(w), tail of the backward scan
@@ -923,6 +929,18 @@ def relator_scan_shape(ctx, rule, g):
                 okc = False
                 det = "the connecting letter can be %s although the forward scan stopped inside the word" % show(d, 1)[:40]
     ctx.ob(rule, sb.name, "letter", "ok" if okc else "violation", "the connecting letter is w[i] whenever the forward scan stopped inside the word" if okc else det)
+    # no letter of the word is read without knowing that it exists: w may be the empty word (a subgroup generator or relator that reduces to it)
+    badidx = []
+    for bi, t in sb.calls("Index::index"):
+        a = [strip(norm(sb.origin(x), g)) for x in t["args"]]
+        if a[0] != w:
+            continue
+        fa = [atom_norm(x, g) for x in sb.facts_at(bi)]
+        if not any(x[0] == "rel" and implies(unov_atom(x), ("rel", "Lt", unov(a[1]), n_)) for x in fa):
+            badidx.append(show(a[1], 1)[:30])
+    ctx.ob("T5-word-index-guarded", sb.name, "w[..] <- index < w.len()", "ok" if not badidx else "violation",
+           "every letter read in scan_both_ways is dominated by `index < w.len()`" if not badidx else
+           "w[%s] is read without a dominating test that the word has such a letter: scanning an EMPTY word (a subgroup generator like a a^-1) panics" % ", ".join(badidx))
     # the two scans: both exits report (row reached, letters consumed)
     for fn in ("scan", "scan_inverse"):
         b = ctx.body(C + fn)
